@@ -28,7 +28,10 @@ SHARD = 400
 RULE = ("complete grid: 10 query classes x {select, set operation, update} x n in {absent,0,positive} x m in "
         "{absent,0,positive} with the calls issued as limit-then-offset / offset-then-limit / slice; plus random programs "
         "of 0-6 pagination calls (limit, offset, slice, top, fetch_next, limit_by, limit_offset_by; repeated calls; "
-        "values from {0,1,2,7,10,99,10^12,random}) interleaved with orderby/for_update/distinct; plus a malformed stream "
+        "values from {0,1,2,7,10,99,10^12,random}) interleaved with orderby/for_update/distinct and with other @builder calls "
+        "(where, select, groupby, set, replace_table with an equal / another / an absent table) placed mostly after the "
+        "pagination calls; the product (pagination state incl. ClickHouse LIMIT n OFFSET m BY and MSSQL TOP) x (one later "
+        "call); set operations whose operands carry their own limit/offset/limit_by/top; plus a malformed stream "
         "(negative numbers, str/float arguments, methods the class does not have). A case is non-trivial when at least "
         "one pagination call with in-range arguments is present; distinct by (class, kind, call list)")
 TRUSTED = [
@@ -53,6 +56,10 @@ COQ_KIND = {py: cq for cq, py in KINDS}
 FETCH = ("OracleQuery", "MSSQLQuery")
 SETOPS = ["union", "union_all", "intersect", "except_of", "minus"]
 PAGE_OPS = ("limit", "offset", "slice", "top", "fetch_next", "limit_by", "limit_offset_by")
+# other @builder calls made before/between/after the pagination calls: they must leave the window alone
+OTHER_SELECT = ("where", "select", "groupby", "replace_same", "replace_other", "replace_none")
+OTHER_UPDATE = ("where", "set", "replace_same", "replace_other", "replace_none")
+BASE_OPS = ("distinct", "where", "select", "groupby", "set", "replace_same", "replace_other", "replace_none")
 
 
 def _cls(name):
@@ -66,12 +73,25 @@ def _table():
     return Table("t")
 
 
-def _base(clsname, kind, setop="union"):
+def _operands(clsname, operands=None):
+    """the two operands of a set operation, each with its own pagination calls (operands = [ops_a, ops_b])"""
+    c, t = _cls(clsname), _table()
+    qa, qb = c.from_(t).select(t.a), c.from_(t).select(t.b)
+    if operands:
+        for op in operands[0]:
+            qa = _apply(qa, op, "select")
+        for op in operands[1]:
+            qb = _apply(qb, op, "select")
+    return qa, qb
+
+
+def _base(clsname, kind, setop="union", operands=None):
     c, t = _cls(clsname), _table()
     if kind == "select":
         return c.from_(t).select(t.a)
     if kind == "setop":
-        return getattr(c.from_(t).select(t.a), setop)(c.from_(t).select(t.b))
+        qa, qb = _operands(clsname, operands)
+        return getattr(qa, setop)(qb)
     if kind == "update":
         return c.update(t).set(t.b, 1).where(t.a >= 0)
     raise ValueError(kind)
@@ -103,11 +123,24 @@ def _apply(q, op, kind):
         return q.for_update()
     if k == "distinct":
         return q.distinct()
+    if k == "where":
+        return q.where(t.a >= 1)
+    if k == "select":
+        return q.select(t.b)
+    if k == "groupby":
+        return q.groupby(t.a)
+    if k == "set":
+        return q.set(t.c, 2)
+    if k in ("replace_same", "replace_other", "replace_none"):
+        from pypika import Table
+        old, new = {"replace_same": (t, Table("t")), "replace_other": (t, Table("u")),
+                    "replace_none": (Table("zz"), Table("yy"))}[k]
+        return q.replace_table(old, new)
     raise ValueError(k)
 
 
 def _build(case, keep):
-    q = _base(case["cls"], case["kind"], case.get("setop", "union"))
+    q = _base(case["cls"], case["kind"], case.get("setop", "union"), case.get("operands"))
     for op in case["ops"]:
         if keep(op[0]):
             q = _apply(q, op, case["kind"])
@@ -371,6 +404,53 @@ def extract():
             top_rows.append(P(B(d), "(Some %s)" % P(Zc(v), B(pc), B(ties)), S(rest), S(str(q0.top(v, percent=pc, with_ties=ties)))))
         top_rows.append(P(B(d), "None", S(rest), S(str(q0))))
     out.append("Definition x_top : list (bool * option (Z * bool * bool) * string * string) :=\n [" + ";\n  ".join(top_rows) + "].")
+    # ---- other @builder calls leave the pagination slots alone (incl. ClickHouse _limit_by, MSSQL _top)
+    from pypika import Field
+
+    def state(q):
+        st = [repr(q._limit), repr(q._offset)]
+        if "_limit_by" in q.__dict__:
+            lb = q._limit_by
+            st.append(None if lb is None else [repr(lb[0]), repr(lb[1]), [str(x) for x in lb[2]]])
+        if "_top" in q.__dict__:
+            st.append([repr(q._top), repr(q._top_percent), repr(q._top_with_ties)])
+        return st
+    keep_rows = []
+    for cq, py in CLASSES:
+        for kq, kind in KINDS:
+            pool = {"select": OTHER_SELECT + ("orderby", "for_update", "distinct"), "update": OTHER_UPDATE,
+                    "setop": ("orderby",)}[kind]
+            for name in pool:
+                q = _base(py, kind)
+                q._limit, q._offset = 70, 50
+                if py == "ClickHouseQuery" and kind != "setop":
+                    q._limit_by = (3, 2, [Field("a")])
+                if py == "MSSQLQuery" and kind != "setop":
+                    q._top, q._top_percent, q._top_with_ties = 4, False, True
+                before = state(q)
+                q2 = _apply(q, [name], kind)
+                keep_rows.append(P(cq, kq, S(name), B(state(q) == before and state(q2) == before)))
+    out.append("Definition x_keep : list (cls * kind * string * bool) :=\n [" + ";\n  ".join(keep_rows) + "].")
+
+    # ---- a set operation whose operands carry their own pagination: the tail is the set operation's own limit/offset
+    so_rows = []
+    for cq, py in CLASSES:
+        opnds = [[["limit", 2], ["offset", 1]], [["limit", 3]]]
+        if py == "ClickHouseQuery":
+            opnds = [[["limit_offset_by", 3, 2, ["a"]], ["limit", 2]], [["limit_by", 1, ["b"]]]]
+        if py == "MSSQLQuery":
+            opnds = [[["top", 4, False, False], ["limit", 2]], [["offset", 3]]]
+        for order in (opnds, [opnds[1], opnds[0]]):
+            u = _base(py, "setop", "union", order)
+            t0 = str(u)
+            for a in _operands(py, order):
+                if str(a) not in t0:
+                    raise RuntimeError("%s: operand text %r is not part of the set operation %r" % (py, str(a), t0))
+            full = str(u.limit(7).offset(5))
+            if not full.startswith(t0):
+                raise RuntimeError("%s: paginated set operation does not extend the plain one" % py)
+            so_rows.append(P(cq, S(full[len(t0):])))
+    out.append("Definition x_setop_operands : list (cls * string) :=\n [" + ";\n  ".join(so_rows) + "].")
     return {"gen/C12Table.v": "\n".join(out) + "\n"}
 
 
@@ -464,10 +544,30 @@ def _random_case(rng, malformed=False):
             extra.append(["orderby"])
         for e in extra:
             ops.insert(rng.randrange(len(ops) + 1), e)
+    _sprinkle_other(rng, ops, kind, 0.45)
     c = {"cls": clsname, "kind": kind, "ops": ops}
     if kind == "setop":
         c["setop"] = rng.choice(SETOPS)
+        if rng.random() < 0.5:
+            c["operands"] = _operand_ops(rng, clsname)
     return c
+
+
+def _sprinkle_other(rng, ops, kind, p):
+    """other @builder calls at random positions (mostly AFTER the pagination calls: the window must survive them)"""
+    pool = OTHER_SELECT if kind == "select" else (OTHER_UPDATE if kind == "update" else ())
+    if not pool or rng.random() >= p:
+        return
+    for _ in range(rng.choice([1, 1, 2, 3])):
+        pos = len(ops) if rng.random() < 0.6 else rng.randrange(len(ops) + 1)
+        ops.insert(pos, [rng.choice(pool)])
+
+
+def _operand_ops(rng, clsname):
+    """pagination calls made on the OPERANDS of a set operation before it is formed"""
+    def one():
+        return [_page_op(rng, clsname, "select") for _ in range(rng.choice([0, 1, 1, 2, 3]))]
+    return [one(), one()]
 
 
 def _grid_ops(n, m, order, kind):
@@ -498,15 +598,51 @@ def _grid(rng, full):
                                 ops.insert(rng.randrange(len(ops) + 1), ["orderby"])
                                 if kind == "select":
                                     ops.insert(rng.randrange(len(ops) + 1), ["for_update"])
+                            _sprinkle_other(rng, ops, kind, 0.3)
                             c = {"cls": py, "kind": kind, "ops": ops}
                             if kind == "setop":
                                 c["setop"] = rng.choice(SETOPS)
+                                if rng.random() < 0.4:
+                                    c["operands"] = _operand_ops(rng, py)
                             out.append(c)
     return out
 
 
+def _survival_product(rng, full):
+    """product (pagination state incl. ClickHouse LIMIT n OFFSET m BY, MSSQL TOP) x (one later @builder call);
+    and set operations whose operands carry their own limit/offset/limit_by/top"""
+    out = []
+    for _, py in CLASSES:
+        states = [[["limit", 7], ["offset", 5]], [["limit", 0]], [["slice", 3, 9]]]
+        if py in FETCH:
+            states.append([["fetch_next", 4], ["offset", 2]])
+        if py == "MSSQLQuery":
+            states += [[["top", 0, False, False]], [["top", 5, True, True], ["limit", 3]]]
+        if py == "ClickHouseQuery":
+            states += [[["limit_offset_by", 3, 2, ["a"]]], [["limit_by", 4, ["a", "b"]], ["limit", 7]],
+                       [["limit_offset_by", 1, 1, ["b"]], ["limit", 7], ["offset", 5]]]
+        if not full:
+            states = [rng.choice(states[:3])] + states[3:]
+        for st in states:
+            for kind, pool in (("select", OTHER_SELECT + ("orderby", "for_update", "distinct")), ("update", OTHER_UPDATE)):
+                if kind == "update" and any(o[0] in ("limit_by", "limit_offset_by") for o in st) and not full:
+                    continue
+                for later in (pool if full or py in ("ClickHouseQuery", "MSSQLQuery") else [rng.choice(pool)]):
+                    out.append({"cls": py, "kind": kind, "ops": [list(o) for o in st] + [[later]]})
+        # operands with their own pagination
+        opnds = [[["limit", 2], ["offset", 1]], [["limit", 3]]]
+        if py == "ClickHouseQuery":
+            opnds = [[["limit_offset_by", 3, 2, ["a"]], ["limit", 2]], [["limit_by", 1, ["b"]]]]
+        if py == "MSSQLQuery":
+            opnds = [[["top", 4, False, False], ["limit", 2]], [["offset", 3]]]
+        for own in ([], [["limit", 7]], [["orderby"], ["limit", 7], ["offset", 5]], [["offset", 5]]):
+            out.append({"cls": py, "kind": "setop", "setop": rng.choice(SETOPS), "operands": opnds, "ops": own})
+            out.append({"cls": py, "kind": "setop", "setop": "union", "operands": [opnds[1], opnds[0]], "ops": own})
+    return out
+
+
 def gen_cases(rng, tier):
-    out = _grid(rng, tier != "quick")
+    out = _grid(rng, tier != "quick") + _survival_product(rng, tier != "quick")
     n_rand, n_bad = (420, 60) if tier == "quick" else (9000, 1200)
     out += [_random_case(rng) for _ in range(n_rand)]
     out += [_random_case(rng, malformed=True) for _ in range(n_bad)]
@@ -569,16 +705,18 @@ def corpus():
 def run_impl(case):
     kind = case["kind"]
     try:
-        q0 = _build(case, lambda k: k == "distinct")
+        q0 = _build(case, lambda k: k in BASE_OPS)
         text0 = str(q0)
-        ob = str(_build(case, lambda k: k in ("distinct", "orderby")))
-        fu = str(_build(case, lambda k: k in ("distinct", "for_update")))
+        ob = str(_build(case, lambda k: k in BASE_OPS or k == "orderby"))
+        fu = str(_build(case, lambda k: k in BASE_OPS or k == "for_update"))
         unpaged = str(_build(case, lambda k: k not in PAGE_OPS and k != "for_update"))
     except Exception as e:  # noqa
         return {"harness_exc": "cannot render the un-paginated statement: %s: %s" % (type(e).__name__, e)}
     if not (ob.startswith(text0) and fu.startswith(text0)):
-        return {"harness_exc": "ORDER BY / FOR UPDATE text does not extend the plain statement"}
-    out = {"ob": ob[len(text0):], "fu": fu[len(text0):], "unpaged": unpaged}
+        # something is rendered after the place where ORDER BY / FOR UPDATE belong although no pagination was requested
+        return {"shape_error": "without any limit/offset call the statement renders %r, with ORDER BY %r, with FOR UPDATE %r: "
+                               "the latter do not extend the former" % (text0, ob, fu)}
+    out = {"ob": ob[len(text0):], "fu": fu[len(text0):], "unpaged": unpaged, "plain": text0}
     if kind == "select":
         prefix = "SELECT DISTINCT " if any(o[0] == "distinct" for o in case["ops"]) else "SELECT "
         if not text0.startswith(prefix):
@@ -586,6 +724,11 @@ def run_impl(case):
         out["rest"] = text0[len(prefix):]
     else:
         out["rest"] = text0
+    if kind == "setop" and case.get("operands"):
+        try:
+            out["operand_texts"] = [str(q) for q in _operands(case["cls"], case["operands"])]
+        except Exception as e:  # noqa
+            return {"harness_exc": "cannot render the operands: %s: %s" % (type(e).__name__, e)}
     try:
         out["text"] = str(_build(case, lambda k: True))
     except Exception as e:  # noqa
@@ -638,12 +781,12 @@ def _call_coq(op):
         return "(CLimitBy %s %s)" % (Zc(op[1]), cols(op[2]))
     if k == "limit_offset_by":
         return "(CLimitOffsetBy %s %s %s)" % (Zc(op[1]), Zc(op[2]), cols(op[3]))
-    return None
+    return "COther"
 
 
 def to_coq(case, outcome):
-    if "harness_exc" in outcome:
-        raise RuntimeError(outcome["harness_exc"])
+    if "harness_exc" in outcome or "shape_error" in outcome:
+        raise RuntimeError(outcome.get("harness_exc") or outcome["shape_error"])
     if not _modelled(case):
         return None
     calls = [c for c in (_call_coq(op) for op in case["ops"]) if c is not None]
@@ -732,10 +875,10 @@ def _sqlite():
     import sqlite3
     if _SQLITE is None:
         con = sqlite3.connect(":memory:")
-        con.execute('create table "t" ("a" integer, "b" integer)')
+        con.execute('create table "t" ("a" integer, "b" integer, "c" integer)')
         # rows inserted in a scrambled order so that ORDER BY matters; "a" has duplicates so DISTINCT matters
         vals = [((i * 17) % N_ROWS, i) for i in range(N_ROWS)] + [(3, 100), (3, 101), (11, 102)]
-        con.executemany('insert into "t" values (?, ?)', vals)
+        con.executemany('insert into "t" ("a", "b") values (?, ?)', vals)
         con.commit()
         _SQLITE = con
     return _SQLITE
@@ -753,6 +896,8 @@ def oracle(case, outcome):
     def viol(what, msg):
         return [{"signature": ["C12", cls, kind, _vclass(n), _vclass(m), what],
                  "what": "%s %s, calls %s: %s" % (cls, kind, json.dumps(case["ops"]), msg)}]
+    if "shape_error" in outcome:
+        return viol("position", outcome["shape_error"])
     if "exc" in outcome:
         return viol("exception", "building/rendering raised %s" % outcome["exc"])
     text, unpaged, fu = outcome["text"], outcome["unpaged"], outcome["fu"]
@@ -768,6 +913,14 @@ def oracle(case, outcome):
     if not (text.startswith(unpaged) and text.endswith(fu) and len(text) >= len(unpaged) + len(fu)):
         return viol("position", "statement %r is not <%r><pagination><%r>" % (text, unpaged, fu))
     tail = text[len(unpaged):len(text) - len(fu)]
+    # --- operands of a set operation keep their own pagination (their standalone text occurs in the statement)
+    ots = outcome.get("operand_texts", [])
+    for i, ot in enumerate(ots):
+        if ot not in text:
+            return viol("operand", "operand %d renders %r on its own but that text is not part of %r" % (i, ot, text))
+    if ots and not outcome["plain"].endswith((ots[-1], ots[-1] + ")")):
+        return viol("operand", "the set operation without ORDER BY/limit/offset renders %r: something follows its last operand %r"
+                    % (outcome["plain"], ots[-1]))
     den = _read_tail(cls, tail)
     if den is None:
         return viol("grammar", "pagination tail %r is not in the %s grammar" %
@@ -783,7 +936,7 @@ def oracle(case, outcome):
     # --- SQLite: the rendered window really returns rows m .. m+n-1 of the ordered result
     if cls == "SQLLiteQuery" and all(v is None or v < 2 ** 63 for v in (n, m)):     # sqlite3 integers are 64-bit
         has_ob = any(o[0] == "orderby" for o in case["ops"])
-        has_fu = any(o[0] == "for_update" for o in case["ops"])
+        has_fu = any(o[0] == "for_update" for o in case["ops"]) or any(o[0] == "replace_other" for o in case["ops"])
         con = _sqlite()
         if kind == "select" and has_ob and not has_fu:
             try:
@@ -796,7 +949,7 @@ def oracle(case, outcome):
             if got_rows != want:
                 return viol("sqlite-rows", "%r returns %d rows starting %r; rows[%d:%s] of the ordered result has %d starting %r"
                             % (text, len(got_rows), got_rows[:2], a, "" if n is None else a + n, len(want), want[:2]))
-        if kind == "update" and n is not None:
+        if kind == "update" and n is not None and not has_fu and not any(o[0] == "where" for o in case["ops"]):
             try:
                 total = con.execute('select count(*) from "t"').fetchone()[0]
                 cur = con.execute(text)
@@ -850,7 +1003,7 @@ def targeted_search(rng, broken, mism_cases):
                 d = dict(c)
                 d["ops"] = [ops[i], ops[j]]
                 out.append(d)
-    out += _grid(rng, True)
+    out += _grid(rng, True) + _survival_product(rng, True)
     for _, py in CLASSES:                      # call sequences with repeated calls / slices
         for kind in ("select", "setop", "update"):
             for ops in ([["limit", 7], ["offset", 5], ["limit", 3]], [["offset", 5], ["limit", 7], ["offset", 2]],
